@@ -98,7 +98,7 @@ def body_from_data(
                 )
             )
             continue
-        prop, schemas = property_from_data(
+        prop, prop_schemas = property_from_data(
             name="body",
             required=True,
             data=media_type_schema,
@@ -109,6 +109,7 @@ def body_from_data(
         if isinstance(prop, ParseError):
             bodies.append(prop)
             continue
+        schemas = prop_schemas
         if isinstance(prop, ModelProperty) and body_type == BodyType.FILES:
             # Regardless of if we just made this property or found it, it now needs the `to_multipart` method
             prop = attr.evolve(prop, is_multipart_body=True)
